@@ -142,6 +142,9 @@ impl Check for C06 {
         let mut ao = AnyOpts::default();
         ao.modular = ModGenOpts { max_dim: 400, multi_group: 60, orientation: true, ..Default::default() };
         let c = gen_any_case(&mut src, &ao);
+        if let Ok(p) = std::env::var("VERIF_DUMP") {
+            let _ = std::fs::write(p, &c.bytes);
+        }
         let (bytes, mut classes, desc, feature) = (c.bytes, c.classes, json!(c.desc), c.has_neighbourhood_feature);
         o.case_hash = (crate::engine::fnv(&bytes) ^ crate::engine::fnv(&rb)) | 1;
         if describe {
